@@ -1,0 +1,93 @@
+//! Observation points for the external runtime-monitoring harness (`ipa-verif` feature only).
+//!
+//! An append-only, sequence-numbered event log protected by one mutex, plus a compact log of
+//! PRSS draws. Nothing here influences protocol behaviour, except [`stop_after_dedup`] which lets
+//! the harness end a hybrid query right after the duplicate-report check.
+use std::sync::{
+    Mutex,
+    atomic::{AtomicBool, AtomicU64, Ordering},
+};
+
+#[derive(Clone, Debug)]
+pub struct Event {
+    pub seq: u64,
+    pub kind: &'static str,
+    pub a: u64,
+    pub b: u64,
+    pub c: u64,
+}
+
+#[derive(Clone, Debug)]
+pub struct PrssDraw {
+    pub generator: u64,
+    pub index: u128,
+    pub value: u128,
+}
+
+static EVENTS_ON: AtomicBool = AtomicBool::new(false);
+static PRSS_ON: AtomicBool = AtomicBool::new(false);
+static STOP_AFTER_DEDUP: AtomicBool = AtomicBool::new(false);
+static NEXT_GENERATOR: AtomicU64 = AtomicU64::new(1);
+static EVENTS: Mutex<Vec<Event>> = Mutex::new(Vec::new());
+static GENERATORS: Mutex<Vec<(u64, Vec<u8>)>> = Mutex::new(Vec::new());
+static DRAWS: Mutex<Vec<PrssDraw>> = Mutex::new(Vec::new());
+
+pub fn enable(events: bool, prss: bool) {
+    EVENTS_ON.store(events, Ordering::SeqCst);
+    PRSS_ON.store(prss, Ordering::SeqCst);
+}
+
+pub fn set_stop_after_dedup(v: bool) {
+    STOP_AFTER_DEDUP.store(v, Ordering::SeqCst);
+}
+
+#[must_use]
+pub fn stop_after_dedup() -> bool {
+    STOP_AFTER_DEDUP.load(Ordering::SeqCst)
+}
+
+pub fn emit(kind: &'static str, a: u64, b: u64, c: u64) {
+    if EVENTS_ON.load(Ordering::Relaxed) {
+        let mut log = EVENTS.lock().unwrap_or_else(std::sync::PoisonError::into_inner);
+        let seq = log.len() as u64;
+        log.push(Event { seq, kind, a, b, c });
+    }
+}
+
+#[must_use]
+pub fn drain() -> Vec<Event> {
+    std::mem::take(&mut *EVENTS.lock().unwrap_or_else(std::sync::PoisonError::into_inner))
+}
+
+#[must_use]
+pub fn new_generator(context: &[u8]) -> u64 {
+    let id = NEXT_GENERATOR.fetch_add(1, Ordering::Relaxed);
+    if PRSS_ON.load(Ordering::Relaxed) {
+        GENERATORS
+            .lock()
+            .unwrap_or_else(std::sync::PoisonError::into_inner)
+            .push((id, context.to_vec()));
+    }
+    id
+}
+
+pub fn prss_draw(generator: u64, index: u128, value: u128) {
+    if PRSS_ON.load(Ordering::Relaxed) {
+        DRAWS
+            .lock()
+            .unwrap_or_else(std::sync::PoisonError::into_inner)
+            .push(PrssDraw {
+                generator,
+                index,
+                value,
+            });
+    }
+}
+
+#[must_use]
+pub fn drain_prss() -> (Vec<(u64, Vec<u8>)>, Vec<PrssDraw>) {
+    (
+        std::mem::take(&mut *GENERATORS.lock().unwrap_or_else(std::sync::PoisonError::into_inner)),
+        std::mem::take(&mut *DRAWS.lock().unwrap_or_else(std::sync::PoisonError::into_inner)),
+    )
+}
